@@ -133,7 +133,11 @@ int main(int argc, char **argv) {
 		if (f.family == "qr" && !(wi == 0 || isD)) continue;                // QR encoding does not depend on the dlog group
 		if (f.name == "rabin/key-nizk" && wi != 0) continue;
 		// quick: sized protocols in one world (rotating with the seed and the protocol index); the rest in every world
-		if (quick && f.sized && f.family == "dlog" && (fi + ctx.seed) % worlds.size() != wi) continue;
+		// ... and additionally in the GroupQR world with the range class (+q, +p) only: there |q| = |p|-1 and the exponents are
+		// short, so a missing range check is visible at every position (in the other worlds v+q often overflows the |q|-bit
+		// fixed-base tables and is refused by accident)
+		bool range_only = false;
+		if (quick && f.sized && f.family == "dlog" && (fi + ctx.seed) % worlds.size() != wi) { if (wi == 2) range_only = true; else continue; }
 		if (isD && !(fi % 5 == ctx.seed % 5)) continue;                     // default sizes: sampled
 		bool filtered = false;
 		if (!only_proto.empty()) {     // development / mutant triage: --opt proto=<prefix>[,<prefix>...]; case numbers stay the same
@@ -147,7 +151,7 @@ int main(int argc, char **argv) {
 		for (size_t n : ns) for (size_t blk = 0; blk < nblocks; blk++) {
 			if (!quick && n == 8 && !(wi == 0 || wi == 3)) continue;                 // thorough: n = 8 in the S/random-g and G worlds
 			std::string cid = std::string(worlds[wi].tag) + " " + f.name + " n=" + std::to_string(n);
-			std::string desc = cid + " block=" + std::to_string(blk) + "/" + std::to_string(nblocks);
+			std::string desc = cid + " block=" + std::to_string(blk) + "/" + std::to_string(nblocks) + (range_only ? " range-class-only" : "");
 			long kk = k++;
 			if (filtered || (max_n > 0 && (long)n > max_n) || !case_begin(kk, desc)) continue;
 			World *&W = wcache[(int)wi];
@@ -173,10 +177,12 @@ int main(int argc, char **argv) {
 
 			// ---------------------------------------------------------- (1) transcript lines
 			std::vector<LineMut> LM = gen_line_muts(C, B.pl, !quick, f.name);
-			if (blk == 0) { count("lines/" + f.name, (long long)B.pl.size()); count("prover_lines_total", (long long)B.pl.size()); }
+			if (blk == 0 && !range_only) { count("lines/" + f.name, (long long)B.pl.size()); count("prover_lines_total", (long long)B.pl.size()); }
+			if (range_only) count("range_only_cases");
 			for (size_t i = 0; i < LM.size(); i++) {
 				if (i % nblocks != blk) continue;
 				LineMut &m = LM[i];
+				if (range_only && m.mut != "+q" && m.mut != "+p") continue;
 				if (m.equal) { count("skipped_equal_text"); count("skipped_equal/" + m.mut); continue; }
 				Verdict V = I->interactive ? verify_mitm(*I, B, m) : verify_text(*I, B, apply_text(B.pl, m));
 				note(V);
@@ -195,7 +201,7 @@ int main(int argc, char **argv) {
 			}
 
 			// ---------------------------------------------------------- (2) public inputs (verifier's view)
-			{
+			if (!range_only) {
 				// cut-and-choose verifiers look at a public input only in rounds whose challenge selects it:
 				// the run is repeated with the verifier's coins scripted to all-0 and all-1
 				bool cc = I->interactive && I->variant.compare(0, 6, "kappa=") == 0;
@@ -243,7 +249,7 @@ int main(int argc, char **argv) {
 			}
 
 			// ---------------------------------------------------------- (3) verifier-side objects
-			if (blk == 0 && f.name != "rabin/key-nizk") {
+			if (blk == 0 && f.name != "rabin/key-nizk" && !range_only) {
 				Alt *&A = acache[(int)wi]; if (!A) A = new Alt(*W, ctx.seed);
 				for (const std::string &ak : alt_kinds(f.name)) {
 					World *V0 = A->view("identity", n), *V1 = ak == "key:other-rabin" ? V0 : A->view(ak, n);
